@@ -188,6 +188,9 @@ def exec_grammar(engine_extras: bool = False, opt_extras: bool = False, limit_ex
             A("reorder.comma3", 1, "SELECT x.a, y.c FROM x, y, x AS x2 WHERE x.b = x2.a AND y.b = x2.b"),
             A("reorder.cross_where", 1, "SELECT x.a, y.c FROM x CROSS JOIN y WHERE x.b = y.b AND y.c = 1"),
             A("reorder.join_chain", 1, "SELECT x.a, y.c, x2.b FROM x JOIN x AS x2 ON TRUE JOIN y ON y.b = x.b AND y.c = x2.a"),
+            # three-item join chains: first item (table / derived table or CTE with its own filter) x first join x second join x
+            # what the second ON refers to x outer filter - all free menus, so every combination has cost 1
+            A("chain3", 1, "{c3cte}SELECT s.a, y.c, x2.b FROM {c3first} {jk} y ON s.b = y.b {jk2} x AS x2 ON {c3on2}{c3where}"),
             A("having.alias", 1, "SELECT a, SUM(b) AS s FROM x GROUP BY a HAVING SUM(b) > 1 AND a > 0"),
             A("order.derived", 1, "SELECT s.a, s.b FROM (SELECT a, b FROM x ORDER BY 2, 1) AS s ORDER BY 1, 2 LIMIT 2"),
             # predicate kind x subquery body: every uncorrelated body under every subquery predicate
@@ -222,6 +225,12 @@ def exec_grammar(engine_extras: bool = False, opt_extras: bool = False, limit_ex
             "subagg": [A("sa.max", 0, "SELECT MAX(c) FROM y"), A("sa.count_corr", 1, "SELECT COUNT(*) FROM y WHERE y.b = x.b"), A("sa.sum_corr", 1, "SELECT SUM(c) FROM y WHERE y.b = x.b"),
                        A("sa.max_corr_two", 1, "SELECT MAX(c) FROM y WHERE y.b = x.b AND y.c > x.a"), A("sa.count_distinct", 1, "SELECT COUNT(DISTINCT c) FROM y WHERE y.b = x.b"),
                        A("sa.min_where", 1, "SELECT MIN(c) FROM y WHERE c > 1"), A("sa.count_group", 1, "SELECT COUNT(*) FROM y WHERE y.b = x.b GROUP BY y.b")],
+            "c3cte": [A("c3.nocte", 0, "")],
+            "c3first": [A("c3.table!", 0, "x AS s"), A("c3.derived_where!", 0, "(SELECT a, b FROM x WHERE a = 1) AS s"),
+                        A("c3.derived_notnull!", 0, "(SELECT a, b FROM x WHERE b IS NOT NULL) AS s"), A("c3.derived_plain!", 0, "(SELECT a, b FROM x) AS s")],
+            "jk2": [A("j2.inner!", 0, "JOIN"), A("j2.left!", 0, "LEFT JOIN"), A("j2.right!", 0, "RIGHT JOIN"), A("j2.full!", 0, "FULL JOIN")],
+            "c3on2": [A("on2.other!", 0, "y.c = x2.a"), A("on2.first!", 0, "s.a = x2.a"), A("on2.both!", 0, "y.c = x2.a AND s.a = x2.b")],
+            "c3where": [A("c3.nowhere", 0, ""), A("c3.where_first!", 0, " WHERE s.a = 1"), A("c3.where_last_null!", 0, " WHERE x2.b IS NULL")],
             "sc_s": [A("d", 0, "s.a = 1"), A("s.b_null", 1, "s.a IS NULL"), A("s.gt", 1, "s.a > 1"), A("s.or", 1, "s.a = 1 OR s.a IS NULL"),
                      A("s.in", 1, "s.a IN (1, NULL)"), A("s.not", 1, "NOT s.a = 1"), A("s.neq", 1, "s.a <> 2")],
             "jc_ys": [A("d", 0, "y.c = 1"), A("n_null", 1, "s.n IS NULL"), A("n_gt", 1, "s.n > 1"), A("coalesce", 1, "COALESCE(s.n, 0) = 0")],
